@@ -88,7 +88,7 @@ def run_c07(pid, tier, seed, replay=None):
         rnd = random.Random(seed)
         if tier == "quick":
             singles = [c for c in singles if c["base"] <= 2]
-            pairs = rnd.sample(pairs, 250)
+            pairs = rnd.sample(pairs, 800)
         else:
             pairs = rnd.sample(pairs, 30000)
         # undamaged files too, up to 9 dimensions: whatever a read returns must survive the battery (the gradient of a table with
